@@ -330,7 +330,8 @@ ACCEPTED = [
      "reason": "the buffer ends with its only NUL byte: the loop breaks immediately after pushing 0"},
     {"match": (lambda fid, fn, ob, key: "::value|ratio:to_integer|" in key and key.startswith("FixedPoint")), "side": sc_ratio_denominators,
      "reason": "fixed-point denominators are the non-zero constants 0x100 / 0x10000"},
-    {"match": K("MoofBox::get_size|Overflow(Add)|size, Mp4Box::box_size(traf)"), "side": sc_trusted("A-MEM"),
+    {"match": (lambda fid, fn, ob, key: key.split("|")[0].split("::{closure")[0] == "MoofBox::get_size" and "|Overflow(Add)|" in key
+               and any("TrafBox as mp4box::Mp4Box>::box_size" in r for x in ("a", "b") for r in ((ob.get("detail") or {}).get(x) or {}).get("prov", []))), "side": sc_trusted("A-MEM"),
      "reason": "sum of in-memory traf sizes; each parsed trun's 4*sample_count terms were bounded by its box size by the trun reader"},
     {"match": K("<StscBox as ReadBox<&mut R>>::read_box|unwrap_opt:unwrap|slice::get"), "side": sc_trusted("one push per iteration of 0..entry_count"),
      "reason": "entries holds exactly entry_count elements (one push per iteration, every early exit returns) and i < entry_count (i + 1 < entry_count under the `i < entry_count - 1` test)"},
